@@ -286,7 +286,8 @@ def setter_case(draw):
     nd = len(g["n"])
     return {"g": g, "k": draw(gen.nvdim_strategy()), "seed": draw(st.integers(0, 2**31)),
             "form": draw(st.sampled_from(["bool-array", "int-array", "float-array", "nested-list", "callable", "true",
-                                          "false", "none", "norm", "norm", "bool-array-n1", "field-mask", "field-mask"])),
+                                          "false", "none", "norm", "norm", "bool-array-n1", "field-mask", "field-mask",
+                                          "bool-fortran", "bool-strided", "bool-readonly", "uint8-array"])),
             # valid="norm" on integer-typed fields whose squares leave the range of the dtype
             "norm_dtype": draw(st.sampled_from(["float", "float", "int32", "int64", "int16", "complex"])),
             "mask": draw(gen.mask_spec(nd)), "via": draw(st.sampled_from(["init", "setter"])),
@@ -347,6 +348,17 @@ def check_setter(case):
             tag("norm-complex")
     elif form == "bool-array":
         val, model = M.copy(), M
+    elif form == "bool-fortran":
+        val, model = np.asfortranarray(M.copy()), M
+    elif form == "bool-strided":
+        big = np.zeros(tuple(2 * m for m in n), dtype=bool)
+        big[tuple(slice(None, None, 2) for _ in n)] = M
+        val, model = big[tuple(slice(None, None, 2) for _ in n)], M
+    elif form == "bool-readonly":
+        val, model = M.copy(), M
+        val.flags.writeable = False
+    elif form == "uint8-array":
+        val, model = M.astype(np.uint8) * 255, M
     elif form == "bool-array-n1":
         val, model = M.copy()[..., np.newaxis], M
     elif form == "int-array":
